@@ -311,3 +311,62 @@ contract("bacpypes.bvllservice:BIPForeign.register",
     ensures=["registering_ok(self, addr, ttl)", "len(trace('to_net')) == 0"],
     modifies=["self.bbmdAddress", "self.bbmdTimeToLive", "self.registrationStatus", "self.isScheduled", "self.taskTime", "self._registration_timeout_task.isScheduled"],
     note="(re)starting a registration: the request goes out at once (task installed for time 0), whatever happened before")
+
+# -- the ordinary node (BIPSimple) ------------------------------------------------------------------------------------------------------------
+
+from bacpypes.bvllservice import BIPSimple
+
+ORIGIN = Address("192.168.2.9")
+PEER = Address("192.168.1.9")
+
+def Simple():
+    def build(b, name):
+        o = object.__new__(BIPSimple)
+        o.__dict__.update(serviceID=None, serviceElement=Tok('bse'), clientID=None, clientPeer=Tok('lower'), serverID=None, serverPeer=Tok('upper'))
+        b.built[name] = o
+        return o
+    return Fn(build)
+
+def simple_up_ok(to_up, source, dest, data):
+    """handed to the network layer exactly once: from `source`, to the station itself (unicast) or as a local broadcast, same octets"""
+    if len(to_up) != 1:
+        return False
+    p = to_up[0][0]
+    if not (type(p) is PDU and p.pduSource == source and p.pduData == data):
+        return False
+    return is_local_broadcast(p.pduDestination) if dest is None else p.pduDestination == dest
+
+contract("bacpypes.bvllservice:BIPSimple.confirmation", name="bacpypes.bvllservice:BIPSimple.confirmation[OriginalUnicastNPDU]",
+    params={"self": Simple(), "pdu": BVL("OriginalUnicastNPDU", Const(PEER), Const(LOCAL))},
+    ensures=["simple_up_ok(trace_then('to_up'), pdu.pduSource, pdu.pduDestination, old(bytes(pdu.pduData)))", "len(trace('to_net')) == 0 and len(trace('to_sap')) == 0"],
+    modifies=[])
+
+contract("bacpypes.bvllservice:BIPSimple.confirmation", name="bacpypes.bvllservice:BIPSimple.confirmation[OriginalBroadcastNPDU]",
+    params={"self": Simple(), "pdu": BVL("OriginalBroadcastNPDU", Const(PEER), Const(LocalBroadcast()))},
+    ensures=["simple_up_ok(trace_then('to_up'), pdu.pduSource, None, old(bytes(pdu.pduData)))", "len(trace('to_net')) == 0 and len(trace('to_sap')) == 0"],
+    modifies=[], note="a broadcast of a neighbour on the same subnet: handed up once as a local broadcast from that neighbour")
+
+contract("bacpypes.bvllservice:BIPSimple.confirmation", name="bacpypes.bvllservice:BIPSimple.confirmation[ForwardedNPDU]",
+    params={"self": Simple(), "pdu": BVL("ForwardedNPDU", OneOf(ME, STRANGER), OneOf(LOCAL, LocalBroadcast()), bvlciAddress=Const(ORIGIN))},
+    ensures=["simple_up_ok(trace_then('to_up'), pdu.bvlciAddress, None, old(bytes(pdu.pduData)))", "len(trace('to_net')) == 0 and len(trace('to_sap')) == 0"],
+    modifies=[], note="a broadcast relayed by a BBMD: handed up once as a local broadcast whose source is the true originator, not the relaying BBMD")
+
+contract("bacpypes.bvllservice:BIPSimple.confirmation", name="bacpypes.bvllservice:BIPSimple.confirmation[BBMD functions]",
+    params={"self": Simple(), "pdu": OneOf(BVL("DistributeBroadcastToNetwork", Const(STRANGER), Const(LOCAL)),
+                                          BVL("RegisterForeignDevice", Const(STRANGER), Const(LOCAL), bvlciTimeToLive=Int(0, 65535), pduData=Const(None)))},
+    ensures=["len(trace('to_up')) == 0 and len(trace('to_sap')) == 0"],
+    modifies=[], note="an ordinary node never hands a foreign device's Distribute-Broadcast or a registration to its network layer and never relays it")
+
+def simple_down_ok(to_net, pdu, data):
+    if len(to_net) != 1:
+        return False
+    p = to_net[0][0]
+    if pdu.pduDestination.addrType == Address.localBroadcastAddr:
+        return type(p) is OriginalBroadcastNPDU and is_local_broadcast(p.pduDestination) and p.pduData == data
+    return type(p) is OriginalUnicastNPDU and p.pduDestination == pdu.pduDestination and p.pduData == data
+
+contract("bacpypes.bvllservice:BIPSimple.indication",
+    params={"self": Simple(), "pdu": Obj("bacpypes.pdu:PDU", pduSource=Const(None), pduDestination=OneOf(LocalBroadcast(), PEER), pduUserData=Token(),
+                                         pduData=Bytes(0, 8, mutable=True), pduExpectingReply=Const(0), pduNetworkPriority=Const(0))},
+    ensures=["simple_down_ok(trace_then('to_net'), pdu, old(bytes(pdu.pduData)))", "len(trace('to_up')) == 0"],
+    modifies=[], note="one frame per request: Original-Broadcast for a local broadcast, Original-Unicast to the station otherwise, octets unchanged")
